@@ -13,7 +13,7 @@ UNIT = dict(
     encoded={H: ["fn hamming", "fn hamming_autovec", "fn hamming_scalar"],
              K: ["fn argmax", "fn argmin", "fn argmin_value", "fn argmin_value_float", "fn argmin_value_float_with_bias", "fn argmin_value_opt", "fn argmin_opt"]},
     models=[],
-    bounds={"hamming": "all pairs of byte vectors of the lengths 0, 1, 63, 64, 65 (quick) and 127, 128, 129 (thorough): tail only, exact chunks, chunks + tail",
+    bounds={"hamming": "all pairs of byte vectors of the lengths 0, 1, 2, 63, 64, 65: tail only, one exact chunk, chunk + tail (127, 128, 129 attempted in the thorough tier, do not finish in 1800 s)",
             "argmin": "f32 arrays of length <=4 with every bit pattern (NaN, +-0, +-inf, subnormals); generic versions instantiated at f32 and u32",
             "unwind": "hamming length+2, argmin 6"},
     outside=["l2 / cosine / dot / norm_l2 and their SIMD and f16/bf16 paths (floating-point accumulation in a different order: 'within tolerance' is not decidable by CBMC at useful sizes; AVX/NEON intrinsics are not supported by Kani)",
